@@ -522,6 +522,9 @@ class C15RunLog(Oracle):
     def __init__(self, world, plan, res):
         super().__init__(world, plan, res)
         self.every = plan.get("cfg", {}).get("runlog_every", 1)
+        self._reported: set = set()
+        self._kinds = None
+        self._kinds_src = None
 
     def after_tick(self, w, inc):
         if w.tick_no % self.every:
@@ -569,3 +572,39 @@ class C15RunLog(Oracle):
                     self.v("C15", "C15.concluded_still_offered", it.name.split(":")[0],
                            f"{it.name} {it.state} cancellable={it.cancellable} forcible={it.forcible}")
         self.res.probe("runlog_checked")
+        self._executed_have_completed_items(rl)
+
+    NO_ITEM_KINDS = ("Stop", "blank", "comment", "error", "root")
+
+    def _executed_have_completed_items(self, rl):
+        """Every method instruction other than Stop, blank and comment lines that completed appears as a completed item."""
+        w = self.w
+        if "edit" in w.ctx_flags or not self.plan.get("cfg", {}).get("wellformed"):
+            return          # after a live edit the records are those of a fresh interpreter (recorded under C01/C15@edit)
+        from . import model
+        if getattr(self, "_kinds", None) is None or self._kinds_src is not w.method_lines:
+            self._kinds = {n.id: n for n in model.parse(w.method_lines).walk()}
+            self._kinds_src = w.method_lines
+        ms = w.method_state()
+        items = {}
+        for it in rl.items:
+            items.setdefault(str(it.id), []).append(it)
+        recs = {r.node_id: r for r in w.engine.interpreter.runtimeinfo.records}
+        for lid in ms.executed_line_ids:
+            n = self._kinds.get(lid)
+            if n is None or n.kind in self.NO_ITEM_KINDS:
+                continue
+            r = recs.get(lid)
+            insts = {str(st.instance_id) for st in r.states} if r is not None else set()
+            its = [it for i in insts for it in items.get(i, [])]
+            # a cancelled instruction is reported executed by the method state while its item (rightly) says cancelled
+            if not any(str(it.state).lower().endswith(("completed", "cancelled")) for it in its):
+                key = (lid, "missing" if not its else "not_completed")
+                if key in self._reported:
+                    continue
+                self._reported.add(key)
+                self.v("C15", "C15.executed_instruction_without_completed_item", n.kind,
+                       f"line {lid} {n.text.strip()!r} is reported executed but the run log has "
+                       f"{'no item for it' if not its else 'only ' + str([str(it.state) for it in its])}")
+            else:
+                self.res.probe("executed_line_has_completed_item")
